@@ -6,7 +6,7 @@ from . import racelike, flow, common, c01, c02, c03, joinlike
 
 PROPERTY = "C09"
 LEVEL = "other"
-CONFIGS_QUICK = ["std"]
+CONFIGS_QUICK = ["std", "alloc"]
 CONFIGS_THOROUGH = ["std", "alloc", "core"]
 EXPLANATION = (
     "Path and data-flow rules on the MIR of every zip poll_next body (tuple arities 1-12, array, Vec): (ROW) on an input's "
